@@ -237,18 +237,19 @@ def _call_sites() -> int:
         return 0
 
 
-def subrun(module, pid: str, prog, tier: str, seed: int = 0) -> Run:
+def subrun(module, pid: str, prog, tier: str, seed: int = 0, without=()) -> Run:
     """run another property's rule module as a source of supporting obligations.  If that analysis gives up
     (AnalysisError) after it has already established violations, those are returned; otherwise the error
     propagates (the importing property cannot be decided either)."""
     from .facts import AnalysisError
-    key = (pid, id(prog), tier, seed)
+    key = (pid, id(prog), tier, seed, tuple(sorted(without)))
     hit = _SUBRUNS.get(key)
     if hit is not None and hit[0] is prog:
         if hit[2] is not None:
             raise AnalysisError(hit[2])
         return hit[1]
     sub = Run(pid, tier, seed, quiet=True)
+    sub.without = frozenset(without)  # rule groups the importing property has no use for (not evaluated)
     try:
         module.check(sub, prog, tier)
         if sub.deferred_errors:
